@@ -61,11 +61,22 @@ Missing == [st |-> "missing", delim |-> "none", hdr |-> "none", descr |-> NoDesc
 Blank   == [Missing EXCEPT !.st = "blank"]
 Closed  == [open |-> FALSE, path |-> 0, mode |-> "none", fresh |-> FALSE, delim |-> "none"]
 
+\* ---- scale: a row token >= BigTok stands for a *block* of BigW rows (a table far larger than any I/O buffer; the
+\* harness instantiates it with millions of rows in a counter pattern and identifies it as a whole).  The law that
+\* makes such cases decidable from the small ones - rows concatenate, counts add - is the same law: every count in
+\* this module is RowCount, the number of rows a token sequence stands for.
+BigTok == 900
+BigW   == 1000
+TokW(t) == IF t >= BigTok THEN BigW ELSE 1
+RECURSIVE RowCount(_)
+RowCount(rows) == IF rows = <<>> THEN 0 ELSE TokW(Head(rows)) + RowCount(Tail(rows))
+HasBigAmong(rows, n) == \E i \in 1..(IF Len(rows) < n THEN Len(rows) ELSE n) : rows[i] >= BigTok
+
 \* a text file stores no byte order
 NormDescr(dl, d) == IF dl = "none" THEN d ELSE <<d[1], "na">>
 
 NewFile(c, hd, dl) == [st |-> "ok", delim |-> dl, hdr |-> hd, descr |-> NormDescr(dl, c.descr),
-                       size |-> Len(c.rows), rows |-> c.rows]
+                       size |-> RowCount(c.rows), rows |-> c.rows]
 
 \* "yes" | "no" | "either"
 Compat(f, c) ==
@@ -99,7 +110,7 @@ SelRes(o, f, sel) == [op |-> o, err |-> "none", descr |-> IF sel = "cols" THEN C
                       rows |-> SelRows(sel, f.rows), hdr |-> f.hdr, size |-> f.size, delim |-> f.delim]
 
 \* ---- the outcomes of appending chunk c (optionally with a header argument) to an existing file
-Appended(f, c) == [f EXCEPT !.rows = @ \o c.rows, !.size = @ + Len(c.rows)]
+Appended(f, c) == [f EXCEPT !.rows = @ \o c.rows, !.size = @ + RowCount(c.rows)]
 AppendOutcomes(f, c, hd) ==
     LET k == Compat(f, c) IN
       (IF k \in {"yes", "either"} THEN {[file |-> Appended(f, c), err |-> "none"]} ELSE {})
@@ -144,7 +155,7 @@ HWrite(h, c, hd) ==
        IF handles[h].fresh
        THEN /\ files' = [files EXCEPT ![p] = NewFile(c, hd, handles[h].delim)]
             /\ handles' = [handles EXCEPT ![h].fresh = FALSE]
-            /\ res' = CountRes("create", Len(c.rows))
+            /\ res' = CountRes("create", RowCount(c.rows))
        ELSE /\ \E o \in AppendOutcomes(files[p], c, hd) :
                  /\ files' = [files EXCEPT ![p] = o.file]
                  /\ res' = IF o.err = "none" THEN CountRes("append", o.file.size) ELSE RejRes("append")
@@ -155,6 +166,7 @@ HWrite(h, c, hd) ==
 HReadSel(h, sel) ==
     /\ handles[h].open /\ sel \in ReadSels
     /\ res' = IF handles[h].mode = "w" \/ handles[h].fresh THEN AnyRes("read")
+              ELSE IF sel # "all" /\ HasBigAmong(files[handles[h].path].rows, 2) THEN AnyRes("read")   \* (rows of a block)
               ELSE IF handles[h].mode = "r" THEN SelRes("read", files[handles[h].path], sel)
               ELSE MayRejRes(SelRes("read", files[handles[h].path], sel))
     /\ UNCHANGED <<files, handles>>
@@ -165,6 +177,10 @@ HClose(h) ==
     /\ handles' = [handles EXCEPT ![h] = Closed]
     /\ res' = NoRes("close")
     /\ UNCHANGED files
+
+\* the handle object is released without close() (del sf; it goes out of scope): for the file exactly a close - "after
+\* any sequence of writes ... reading the file returns the concatenation ... the stored row count equals the total"
+HDrop(h) == HClose(h)
 
 \* ---- path-level (open-write-close) operations ---------------------------------------
 \* sfile.write(p, chunk, header=hd, delim=dl) / io.write: a non-append write
@@ -206,7 +222,7 @@ ReadHeader(p) ==
 
 \* ---- invariants of the specification itself ---------------------------------------------
 FileOK(f) == /\ f.st \in {"missing", "blank", "ok"}
-             /\ f.st = "ok" => (f.size = Len(f.rows) /\ Len(f.rows) >= 1 /\ f.descr # NoDescr)
+             /\ f.st = "ok" => (f.size = RowCount(f.rows) /\ Len(f.rows) >= 1 /\ f.descr # NoDescr)
              /\ f.st # "ok" => f = [Missing EXCEPT !.st = f.st]
              /\ (f.delim # "none") => f.descr[2] = "na"
 
@@ -230,7 +246,7 @@ ReadInv == (res.op \in {"read", "readhdr"} /\ Returned(res)) =>
 \* what one step may do to one file
 Kept(f, g)      == g = f
 Grown(f, g)     == /\ f.st = "ok" /\ g.st = "ok" /\ VIsPrefix(f.rows, g.rows) /\ Len(g.rows) > Len(f.rows)
-                   /\ g.hdr = f.hdr /\ g.descr = f.descr /\ g.delim = f.delim /\ g.size = f.size + (Len(g.rows) - Len(f.rows))
+                   /\ g.hdr = f.hdr /\ g.descr = f.descr /\ g.delim = f.delim /\ g.size = f.size + (RowCount(g.rows) - RowCount(f.rows))
 Replaced(f, g)  == g.st \in {"ok", "blank"}
 
 \* appends accumulate and keep the header; only a non-append write (or a truncating open) replaces;
